@@ -11,6 +11,8 @@ import Mfi.Lemmas.FxL
 import Mfi.Lemmas.ResL
 import Mfi.Lemmas.SkelL
 import Mfi.Gen.Oracles
+import Mfi.Model.Integr
+import Mfi.Lemmas.ConstL
 
 namespace Mfi.Props.C09
 open Mfi Mfi.Fx Mfi.Risk Mfi.Gen
@@ -315,6 +317,22 @@ theorem positive_price_before_seizure :
     (∀ l ∈ [withdraw, kamino_withdraw, drift_withdraw, solend_withdraw],
       occursBefore l (· == .zeroAssetPriceCheck) isOp = true) := by decide
 
+/-- `b` occurs in `l` with `a` as the event right before it -/
+def rightAfter (l : List Ev) (a b : Ev) : Bool := (l.zip l.tail).any fun p => p.1 == a && p.2 == b
+
+/-- **the seizure path is the receivership path**: in each of the four withdraw handlers the positive-price check sits
+    in a branch (`cond` depth 1) opened right after the read of the ACCOUNT_IN_RECEIVERSHIP flag — the flag every
+    third-party bracket (liquidation AND deleverage) sets — and of no narrower flag; the flag is read exactly there
+    and once more for the skipped health check. -/
+theorem seizure_price_check_on_every_receivership_withdraw :
+    (∀ l ∈ [withdraw, kamino_withdraw, drift_withdraw, solend_withdraw],
+      rightAfter l (.acctFlag .inReceivership) .zeroAssetPriceCheck = true ∧
+      (l.filter (· == .zeroAssetPriceCheck)).length = 1) ∧
+    (∀ p ∈ [(withdraw, withdraw_cond), (kamino_withdraw, kamino_withdraw_cond), (drift_withdraw, drift_withdraw_cond),
+            (solend_withdraw, solend_withdraw_cond)],
+      p.1.length = p.2.length ∧
+      (p.1.zip p.2).all (fun q => q.1 != .zeroAssetPriceCheck || q.2 == 1) = true) := by decide
+
 end tables
 
 /-! ### every oracle kind binds every account it reads (adapter arms regenerated from state/price.rs) -/
@@ -403,6 +421,69 @@ theorem fixed_and_staked :
 
 end arms
 
+/-! ### the staked-collateral re-scaling (the arithmetic between the load and the price of `arm_StakedWithPythPush`) -/
+
+section staked
+open Mfi.Integr
+
+theorem tdiv_floor_of_nonneg {a b : Int} (ha : 0 ≤ a) (hb : 0 < b) :
+    0 ≤ Int.tdiv a b ∧ Int.tdiv a b * b ≤ a ∧ a < (Int.tdiv a b + 1) * b := by
+  rw [Int.tdiv_eq_ediv_of_nonneg ha]
+  exact ⟨Int.ediv_nonneg ha (by omega), Int.ediv_mul_le a (by omega), Int.lt_ediv_add_one_mul_self a hb⟩
+
+theorem tdiv_nonpos_of_nonpos {a b : Int} (ha : a ≤ 0) (hb : 0 < b) : Int.tdiv a b ≤ 0 := by
+  have := Int.tdiv_nonneg (a := -a) (b := b) (by omega) (by omega)
+  rw [Int.neg_tdiv] at this; omega
+
+/-- one re-scaled component: never above `x × (stake − 1 SOL) / supply` (exact), short of it by less than one
+    unit of the feed, and a zero or negative `x` never comes out positive -/
+def StakedComp (x stake supply r : Int) : Prop :=
+  (0 ≤ x → 0 ≤ r ∧ r * supply ≤ x * (stake - LAMPORTS_PER_SOL) ∧ x * (stake - LAMPORTS_PER_SOL) < (r + 1) * supply) ∧
+  (x ≤ 0 → r ≤ 0)
+
+/-- **staked_never_overstates**: whenever the staked re-scaling produces prices, the pool has a positive token
+    supply and at least its non-refundable first SOL, and BOTH the spot and the time-weighted price are the SOL
+    price times (stake − 1 SOL)/supply rounded toward zero: at or below the exact product for a non-negative
+    price, and never positive for a zero or negative one. -/
+theorem staked_never_overstates {price ema stake supply p e : Int} (hsup : 0 ≤ supply)
+    (h : stakedAdjust price ema stake supply = .ok p e) :
+    0 < supply ∧ LAMPORTS_PER_SOL ≤ stake ∧ StakedComp price stake supply p ∧ StakedComp ema stake supply e ∧
+    I64MIN ≤ p ∧ p ≤ I64MAX ∧ I64MIN ≤ e ∧ e ≤ I64MAX := by
+  unfold stakedAdjust at h
+  split at h
+  · cases h
+  split at h
+  · cases h
+  rename_i hs0 hst
+  simp only at h
+  split at h
+  · cases h
+  split at h
+  · cases h
+  rename_i hp he
+  injection h with h1 h2
+  subst h1; subst h2
+  have hpos : 0 < supply := by omega
+  have hadj : 0 ≤ stake - LAMPORTS_PER_SOL := by omega
+  refine ⟨hpos, by omega, ⟨fun hx => ?_, fun hx => ?_⟩, ⟨fun hx => ?_, fun hx => ?_⟩, by omega, by omega, by omega, by omega⟩
+  · exact tdiv_floor_of_nonneg (Int.mul_nonneg hx hadj) hpos
+  · exact tdiv_nonpos_of_nonpos (Int.mul_nonpos_of_nonpos_of_nonneg hx hadj) hpos
+  · exact tdiv_floor_of_nonneg (Int.mul_nonneg hx hadj) hpos
+  · exact tdiv_nonpos_of_nonpos (Int.mul_nonpos_of_nonpos_of_nonneg hx hadj) hpos
+
+/-- the refusals: an empty pool token supply, and a pool below its first SOL, produce no price -/
+theorem staked_refusals (price ema stake supply : Int) :
+    (supply = 0 → stakedAdjust price ema stake supply = .zeroSupply) ∧
+    (supply ≠ 0 → stake < LAMPORTS_PER_SOL → stakedAdjust price ema stake supply = .math) := by
+  constructor
+  · intro h; simp [stakedAdjust, h]
+  · intro h1 h2; simp [stakedAdjust, h1, h2]
+
+/-- (non-vacuity) a pool of 1 + 1050 SOL behind 1000 pool tokens prices the token at 1.05 SOL -/
+example : stakedAdjust 150000000 149000000 1051000000000 1000000000000 = .ok 157500000 156450000 := by decide
+
+end staked
+
 /-! ### non-vacuity -/
 
 def demoPyth : Pyth := { price := 100000000, conf := 100000, emaPrice := 99000000, emaConf := 90000, expo := -6 }
@@ -416,5 +497,17 @@ example : ∃ lo, priceOfType (.pyth demoPyth) .realTime (some .low) 0 = .ok lo 
 /-- "scaled to a 95 % interval" = 2.12 standard deviations, "capped at 5 % of the price" — both to the last bit -/
 theorem confidence_numbers :
     (Mfi.Gen.CONF_INTERVAL_MULTIPLE * 100 - 212 * ONE).natAbs < 100 ∧ (Mfi.Gen.MAX_CONF_INTERVAL * 20 - ONE).natAbs < 20 := by decide
+
+/-- Pyth price components are scaled by the row of the table chosen by the feed's exponent: that table is exactly the powers of ten 10^0 .. 10^23 as I80F48 (regenerated from the real
+    constants on every run; the model computes its own powers of ten and is diffed against the real functions across
+    ALL 24 decimals) -/
+theorem scaling_table_is_powers_of_ten : Mfi.Gen.EXP_10_I80F48 = Mfi.Fx.POW10FX := Mfi.ConstL.exp10_table_exact
+
+/-- the Switchboard deviation is scaled to a 95 % interval too (1.96 standard deviations), the default maximum
+    confidence is a tenth of the price (u32 scale), the default maximum age one minute -/
+theorem switchboard_and_default_numbers :
+    (Mfi.Gen.STD_DEV_MULTIPLE * 100 - 196 * ONE).natAbs < 100 ∧
+    Mfi.Gen.U32_MAX_FX = 4294967295 * ONE ∧ (Mfi.Gen.U32_MAX_DIV_10_FX * 10 - Mfi.Gen.U32_MAX_FX).natAbs < 10 * ONE ∧
+    Mfi.Gen.MAX_PYTH_ORACLE_AGE = 60 := by decide
 
 end Mfi.Props.C09
